@@ -338,8 +338,12 @@ def run(ctx):
             cross.append(("twin:%s@%d" % (cfg.name(), at), good, [("twin:replaced", mut, "-", None, [(mkt[0], "c1"), (mkt[0], "c1,c1"), (mkt[0], "m1")])]))
     # scale-dependent shapes: chunks larger than one and two 32 KiB copy buffers, exactly one buffer, one byte more; the source
     # intact, damaged directly in front of / behind every buffer seam and chunk edge, and truncated there
-    for cfg in (Cfg(0, b"", 0, 3, 1), Cfg(2, b"", 0, 1, 1)):
-        bigf, _ = universe.big_file(cfg, ctx.seed)
+    for cfg in (Cfg(0, b"", 0, 3, 1), Cfg(2, b"", 0, 1, 1), "periodic"):
+        if cfg == "periodic":
+            cfg = Cfg(0, b"", 0, 3, 1)
+            bigf, _ = universe.big_periodic_file(cfg, ctx.seed)
+        else:
+            bigf, _ = universe.big_file(cfg, ctx.seed)
         pbig = zckref.parse(bigf)
         mkb = marks(pbig, False)
         groups = [("big:intact", bigf, "-", None, [(mkb[0], "c1"), (mkb[0], "c1,c1"), (mkb[len(mkb) // 3], "c1")])]
@@ -351,8 +355,11 @@ def run(ctx):
         # a source that holds the big chunks in another order (other offsets, other seams relative to the file)
         f2, h2, b2 = zckref.build_file(list(reversed(universe.big_file(cfg, ctx.seed)[1])), comp=cfg.comp, htype=cfg.fhash, ctype=cfg.chash, level=3)
         groups.append(("big:reversed", f2, "-", None, [(mkb[0], "c1"), (mkb[0], "m1")]))
+        for off, ln in zckref.extents(pbig):
+            for n in range(off + 4096, off + ln, 12288):
+                groups.append(("big:trunc=%d" % n, bigf[:n], "-", None, [(mkb[0], "c1")]))
         for ch in core.chunks(groups, 4):
-            cross.append(("big:%s" % cfg.name(), bigf, ch))
+            cross.append(("big:%s:%d" % (cfg.name(), len(bigf)), bigf, ch))
     ctx.bounds = {"words": "<= 3 letters over %s" % alpha, "configurations": [c.name() for c in cfgs], "pairs": npairs,
                   "target_markings": "every subset of chunks valid", "sequences": "c1 | c1,c1 | c1,c2 | c2,c1 | m1 | m1,m2"}
     ctx.rule = "case = (target marking, source with damage, call sequence); non-trivial = case in which a copy changed a chunk's marking"
